@@ -6,6 +6,7 @@ use crate::runner::{CaseEnv, Ctx, Failure};
 
 pub mod c01;
 pub mod c03;
+pub mod c04;
 pub mod c05;
 pub mod probe;
 
@@ -24,7 +25,7 @@ pub struct Entry {
 }
 
 pub fn all() -> Vec<Entry> {
-    vec![c01::entry(), c03::entry(), c05::entry()]
+    vec![c01::entry(), c03::entry(), c04::entry(), c05::entry()]
 }
 
 pub fn lookup(id: &str) -> Option<Entry> {
